@@ -306,8 +306,11 @@ func (gb *gcpBalancer) UpdateClientConnState(ccs balancer.ClientConnState) error
 	}
 
 	if len(gb.scRefs) == 0 {
-		// gb.mu is already held here: newSubConn() would lock it again.
-		gb.addSubConn()
+		// gb.mu is already held here: newSubConn() would lock it again. The pool is empty when
+		// an earlier update came without addresses (no connection could be created then) or
+		// when every connection was shut down: bring it back to its minimum size.
+		// (minSize is at least 1 once the config is initialized.)
+		gb.enforceMinSize()
 		return nil
 	}
 
